@@ -78,6 +78,7 @@ TOLERANT = ('compute_totals', 'check_totals', 'coloring', 'driver_totals')
 def shards(tier, seed):
     n = 16 if tier == 'quick' else 64
     per = 7 if tier == 'quick' else 40
+    per = int(os.environ.get('OMV_C31_PER', per))     # development aid: smoke-test a tier with fewer cases
     return [{'seed': seed * 100000 + i * 1000, 'n': per, 'tier': tier} for i in range(n)]
 
 
@@ -1022,8 +1023,9 @@ class HistoryRun:
             self.count('obs:discrete-snapshots')
         for which, txt in before.diff(after):
             mech = _classify_change(model, which, getattr(before, which, None), getattr(after, which, None), stale)
-            if which == 'discrete-outputs' and (lab.startswith(('check_partials', 'check_totals')) or
-                                                lab == 'compute_totals-approx'):
+            if which == 'discrete-outputs' and (lab.startswith(('check_partials', 'check_totals')) or (
+                    cfg['approx_totals'] and lab in ('compute_totals-approx', 'get_total_coloring',
+                                                      'compute_total_coloring'))):
                 # these calls evaluate components at perturbed points; the discrete outputs written there stay
                 mech = 'perturbed-evaluation-leaves-discrete-outputs'
             if mech:
